@@ -32,7 +32,7 @@ func init() {
 		Run: runC16, Workers: 16, GOMAXPROCS: 4,
 		QuickTimeout: 6 * time.Minute, ThoroughTimeout: 30 * time.Minute,
 		QuickFloor: 2000, ThoroughFloor: 40000,
-		RequiredCounters: []string{"once_cases_judged", "function_calls_observed", "retry_after_error", "caller_cancelled_while_waiting", "memo_cases_judged", "OnceLock"},
+		RequiredCounters: []string{"once_cases_judged", "function_calls_observed", "retry_after_error", "caller_cancelled_while_waiting", "deadline_callers", "memo_cases_judged", "OnceLock"},
 		Rule: "each case runs 2-10 concurrent Resolve callers on one promise.Once whose function has a scripted outcome per call (success with a unique value, unique error, block until its context is cancelled or the case ends) and a scripted latency, with caller contexts cancelled at random points (including the initiator's while the function runs); " +
 			"memo cases run 2-10 concurrent callers of one MemoizeFunc; non-trivial = a caller was cancelled while another waited, or an error was followed by a retry; distinct = distinct event orders",
 		Assumptions: commonAssumptions,
